@@ -116,9 +116,10 @@ def both(prop, macro, insts_q, insts_t, unwind=lambda i: i.n + 2, signs=('u', 'i
     for sg in signs:
         for tier, insts in (('quick', insts_q), ('thorough', insts_t)):
             for i in insts:
-                T = i.U if sg == 'u' else i.I
-                add(H(prop, f"{macro}_{sg}_{i.tag}", macro, f"{unwind(i)}, {T}, {i.digit}, {i.n}", tier=tier, inst=i.label,
-                      funcs=('BUint ' if sg == 'u' else 'BInt ') + group, bound=f"{bound}; unwind {unwind(i)}", **kw))
+                T = i.U if sg == 'u' else i.I if sg == 'i' else f"{i.U}, {i.I}"
+                nm = f"{macro}_{sg}_{i.tag}" if sg != 'x' else f"{macro}_{i.tag}"
+                add(H(prop, nm, macro, f"{unwind(i)}, {T}, {i.digit}, {i.n}", tier=tier, inst=i.label,
+                      funcs={'u': 'BUint ', 'i': 'BInt ', 'x': 'BUint+BInt '}[sg] + group, bound=f"{bound}; unwind {unwind(i)}", **kw))
 
 
 # ---------------------------------------------------------------- C06
@@ -137,6 +138,42 @@ HASH_Q = [I(8, 1), I(8, 3), I(16, 2), I(32, 2), I(64, 1), I(64, 2)]
 HASH_T = [I(8, 5), I(16, 3), I(32, 3), I(64, 3), I(64, 5)]
 both('C07', 'c07_hash', HASH_Q, HASH_T, unwind=lambda i: max(i.bytes, 8) + 2, group='derived Hash vs equality',
      bound='all pairs of values; recording hasher')
+
+
+# ---------------------------------------------------------------- C09
+CAST_T = [I(8, 1), I(8, 3), I(8, 5), I(16, 1), I(16, 3), I(32, 1), I(32, 3), I(64, 1), I(64, 2), I(64, 3)]
+CAST_Q = [I(8, 1), I(8, 3), I(16, 1), I(16, 3), I(32, 1), I(64, 1), I(64, 2)]
+
+
+def _cast_targets(insts):
+    return ", ".join(f"({t}, {i.digit}, {i.n})" for i in insts for t in (i.U, i.I))
+
+
+for tier, srcs, tg in (('quick', CAST_Q, CAST_Q), ('thorough', CAST_T, CAST_T)):
+    for i in srcs:
+        for sg, T in (('u', i.U), ('i', i.I)):
+            nm = f"c09_from_{sg}_{i.tag}" + ('' if tier == 'quick' else '_all')
+            add(H('C09', nm, 'c09_from', f"26, {T}, {i.digit}, {i.n}; {_cast_targets(tg)}", tier=tier, inst=i.label,
+                  funcs=f"As/CastFrom from {'BUint' if sg == 'u' else 'BInt'} {i.label} to {2 * len(tg)} bnum types (all digit types, wider/narrower/equal, both signs)",
+                  bound='all source values, symbolic target bit index; unwind 26', cap=600))
+both('C09', 'c09_prim', CAST_Q, [i for i in CAST_T if i not in CAST_Q] + [I(8, 17), I(64, 5)], signs=('x',), unwind=lambda i: max(i.n, 16) + 2,
+     group='<-> all 12 primitive integers, bool, char; cast_signed/cast_unsigned/to_bits/from_bits', bound='all source values, symbolic bit index')
+
+
+# ---------------------------------------------------------------- C13
+for tier, srcs, tg in (('quick', CAST_Q, CAST_Q), ('thorough', CAST_T, CAST_T)):
+    for i in srcs:
+        for sg, T in (('u', i.U), ('i', i.I)):
+            nm = f"c13_btry_{sg}_{i.tag}" + ('' if tier == 'quick' else '_all')
+            add(H('C13', nm, 'c13_btry', f"26, {T}, {i.digit}, {i.n}; {_cast_targets(tg)}", tier=tier, inst=i.label,
+                  funcs=f"BTryFrom from {'BUint' if sg == 'u' else 'BInt'} {i.label} into {2 * len(tg)} bnum types",
+                  bound='all source values, symbolic target bit index; unwind 26', cap=600))
+both('C13', 'c13_prim', CAST_Q, [i for i in CAST_T if i not in CAST_Q] + [I(8, 17), I(64, 5)], signs=('x',), unwind=lambda i: max(i.n, 16) + 2,
+     group='TryFrom into 12 primitives; From/TryFrom from primitives (targets >= source width), bool, char; from_digit(s)/digits/From<[D;N]>',
+     bound='all source values, symbolic bit index')
+for i, P in ((I(8, 1), 'u8'), (I(16, 1), 'u16'), (I(32, 1), 'u32'), (I(64, 1), 'u64'), (I(64, 2), 'u128'), (I(8, 4), 'u32')):
+    add(H('C13', f"c13_kf_from_unsigned_eqwidth_{i.tag}", 'c13_kf_from_unsigned_eqwidth', f"{i.n + 2}, {i.I}, {i.digit}, {i.n}, {P}", kind='kf',
+          tier='quick' if i.tag in ('d8x1', 'd64x1') else 'thorough', inst=i.label, funcs=f'From<{P}> for BInt of equal width', bound=f'all {P} values', core=False))
 
 
 def by_prop(p):
